@@ -616,47 +616,64 @@ def sumChecked : List Int → Int → M Int
     | .error e => .error e
     | .ok v => sumChecked xs v
 
-def minMaxStep (filter : Object → Bool) (mm : MinMax) (od : Object × Nat) : M MinMax :=
-  let (o, depth) := od
-  let mm := popWhile depth mm
-  if !filter o then .ok mm else
-  let upd : M MinMax := match o.address with
-    | some address =>
-      let rep := o.repeat_.getD ⟨1, 0⟩
-      -- `address_offsets.iter().sum()` adds in insertion order (the stack is stored newest first)
-      match sumChecked mm.offsets.reverse 0 with
-      | .error e => .error e
-      | .ok total =>
-        match ck (total + address) with
-        | .error e => .error e
-        | .ok a0 =>
-          match ck (countMinus1AsI64 rep.count * rep.stride) with
-          | .error e => .error e
-          | .ok span =>
-            match ck (a0 + span) with
-            | .error e => .error e
-            | .ok aMax =>
-              .ok { mm with min := Min.min (Min.min mm.min a0) aMax, max := Max.max (Max.max mm.max a0) aMax }
-    | none => .ok mm
-  match upd with
+/-- The min/max update for one addressed object: both ends of its own repeat, on top of the sum
+    of the enclosing blocks' offsets. -/
+def updMinMax (mm : MinMax) (address : Int) (rep : Repeat) : M MinMax :=
+  -- `address_offsets.iter().sum()` adds in insertion order (the stack is stored newest first)
+  match sumChecked mm.offsets.reverse 0 with
   | .error e => .error e
-  | .ok mm =>
-    match o with
-    | .block h _ => .ok { mm with offsets := h.addressOffset :: mm.offsets, lastDepth := mm.lastDepth + 1 }
-    | _ => .ok mm
-
-def minMaxFold (filter : Object → Bool) : List (Object × Nat) → MinMax → M MinMax
-  | [], mm => .ok mm
-  | od :: rest, mm =>
-    match minMaxStep filter mm od with
+  | .ok total =>
+    match ck (total + address) with
     | .error e => .error e
-    | .ok mm' => minMaxFold filter rest mm'
+    | .ok a0 =>
+      match ck (countMinus1AsI64 rep.count * rep.stride) with
+      | .error e => .error e
+      | .ok span =>
+        match ck (a0 + span) with
+        | .error e => .error e
+        | .ok aMax =>
+          .ok { mm with min := Min.min (Min.min mm.min a0) aMax, max := Max.max (Max.max mm.max a0) aMax }
+
+/-- "Push an offset because the next objects are gonna be deeper". -/
+def pushBlock (o : Object) (mm : MinMax) : MinMax :=
+  match o with
+  | .block h _ => { mm with offsets := h.addressOffset :: mm.offsets, lastDepth := mm.lastDepth + 1 }
+  | _ => mm
+
+def minMaxStep (filter : Object → Bool) (mm : MinMax) (od : Object × Nat) : M MinMax :=
+  let mm1 := popWhile od.2 mm
+  if !filter od.1 then .ok mm1 else
+  match (match od.1.address with
+         | some address => updMinMax mm1 address (od.1.repeat_.getD ⟨1, 0⟩)
+         | none => .ok mm1) with
+  | .error e => .error e
+  | .ok mm2 => .ok (pushBlock od.1 mm2)
+
+/- `recurse_objects_with_depth` with the `find_min_max_addresses` callback: the callback sees an
+   object (at its depth) before the object's children are visited one level deeper. -/
+mutual
+def mmWalkObj (filter : Object → Bool) (depth : Nat) (mm : MinMax) : Object → M MinMax
+  | .block h os =>
+    match minMaxStep filter mm (.block h os, depth) with
+    | .error e => .error e
+    | .ok mm1 => mmWalkList filter (depth + 1) mm1 os
+  | .register r => minMaxStep filter mm (.register r, depth)
+  | .command c => minMaxStep filter mm (.command c, depth)
+  | .buffer b => minMaxStep filter mm (.buffer b, depth)
+  | .ref r => minMaxStep filter mm (.ref r, depth)
+def mmWalkList (filter : Object → Bool) (depth : Nat) (mm : MinMax) : List Object → M MinMax
+  | [] => .ok mm
+  | o :: os =>
+    match mmWalkObj filter depth mm o with
+    | .error e => .error e
+    | .ok mm1 => mmWalkList filter depth mm1 os
+end
 
 /-- The analysed (min, max) address over the objects selected by `filter`. Enclosing blocks
     contribute their `address_offset` but **not** their repeat stride; children behind a block
     `ref` are not visited. Arithmetic is `i64` with overflow = panic. -/
 def findMinMax (os : List Object) (filter : Object → Bool) : M (Int × Int) :=
-  match minMaxFold filter (flattenList 0 os) {} with
+  match mmWalkList filter 0 {} os with
   | .error e => .error e
   | .ok mm => .ok (mm.min, mm.max)
 
